@@ -53,10 +53,10 @@ PROPS["C10"] = {
     "technique": "boundary-value enumeration over rapid-generated trees: every inode limit, size limit and cancellation point of each tree, with counting invariants on the recorded events and a differential against the unlimited run",
     "level_text": "Generated trees; per tree the boundary values are enumerated, not sampled: inode limits {1, n-1, n, n+1}, size limits {s-1, s, s+1} for every file size s, cancellation before the scan, inside the k-th Extract for every k and at the j-th visited inode for every j. Invariants are counted on recorded events (AfterInodeVisited, Extract calls with the size they were handed and the bytes they could read, standalone / detector runs) and compared with the unlimited run of the same tree. The image part (per-file byte limit of image loading) is a separate leg over generated tar streams.",
     "level_note": "Trusted: recording fake plugins and stats collector (harness/internal/recext), the in-memory FS. Cancellation is injected synchronously from inside a callback, so the cancellation instant is exact; asynchronous cancellation between two instructions is not explored.",
-    "rule": "rapid-generated trees (<=14 nodes, 1..2 roots, symlinks, special files) x 1..3 fake extractors x 0..2 standalone extractors x 0..2 detectors; per tree all boundary limits and all cancellation points (before the scan, inside each Extract call, at each inode, inside each standalone extractor and each detector, which then returns nil or the context's error) are enumerated; one evaluation per (tree, limit or cancellation point); non-trivial = the limit is within +-1 of the quantity it bounds, or the cancellation point has work remaining after it; distinct by (scenario hash, mode, parameter). Image leg: generated layer tars with file sizes in {L-1, L, L+1, 2L} for byte limits L",
+    "rule": "container leg: one package-list file rewritten by 2..5 layers with sizes on both sides of ScanConfig.MaxFileSize, scanned with ScanContainer and a recording extractor (no Extract call, in any pass over any layer, may receive more than the limit; what the final file system holds within the limit is reported); rapid-generated trees (<=14 nodes, 1..2 roots, symlinks, special files) x 1..3 fake extractors x 0..2 standalone extractors x 0..2 detectors; per tree all boundary limits and all cancellation points (before the scan, inside each Extract call, at each inode, inside each standalone extractor and each detector, which then returns nil or the context's error) are enumerated; one evaluation per (tree, limit or cancellation point); non-trivial = the limit is within +-1 of the quantity it bounds, or the cancellation point has work remaining after it; distinct by (scenario hash, mode, parameter). Image leg: generated layer tars with file sizes in {L-1, L, L+1, 2L} for byte limits L",
     "assumptions": ["'the tree holds more inodes than the limit' is measured by the number of inodes the unlimited scan visits",
                     "after cancellation inside an Extract call, further extractors may still run on the same file (the property forbids extraction on any FURTHER file)"],
-    "legs": [{"fam": "scanfam", "run": "^TestC10_scan$"}, {"fam": "layerfam", "run": "^TestC10_image$"}],
+    "legs": [{"fam": "scanfam", "run": "^TestC10_scan$"}, {"fam": "layerfam", "run": "^TestC10_(image|container)$"}],
     "timeout": {"quick": 900, "thorough": 3000},
 }
 
